@@ -27,8 +27,8 @@ def parseProg (rest : List String) : Option (List Cmd) :=
   parts.mapM parseCmd
 
 def fmtEntry : LogEntry → String
-  | .user k t => s!"{k}@{t}"
-  | .step t => s!"S@{t}"
+  | .user _ k t => s!"{k}@{t}"
+  | .step _ t => s!"S@{t}"
 
 def fmtRun (old : Sim) (s : Sim) : String :=
   let new := s.log.drop old.log.length
